@@ -66,7 +66,13 @@ var (
 	nonameBytes []byte
 	sharedFace  *canvas.FontFace
 	sharedSmall *canvas.FontFace // the same font object at another size
+	sharedFam   *canvas.FontFamily
 )
+
+// faceDump: which font and which faux styles a face got, and a text laid out with it
+func faceDump(face *canvas.FontFace, s string) string {
+	return fmt.Sprintf("%s style=%v variant=%v fauxbold=%g fauxitalic=%g size=%g %s", face.Font.Name(), face.Style, face.Variant, face.FauxBold, face.FauxItalic, face.Size, textDumpGlyphs(canvas.NewTextLine(face, s, canvas.Left)))
+}
 
 func repoDir() string {
 	if d := os.Getenv("VERIF_REPO"); d != "" {
@@ -92,6 +98,7 @@ func loadFonts() {
 		if err := fam.LoadFont(b, 0, canvas.FontRegular); err != nil {
 			panic(err)
 		}
+		sharedFam = fam
 		sharedFace = fam.Face(12.0, canvas.Black, canvas.FontRegular, canvas.FontNormal)
 		sharedSmall = fam.Face(7.0, canvas.Black, canvas.FontRegular, canvas.FontNormal)
 	})
@@ -183,6 +190,23 @@ var Bodies = []Body{
 	{Name: "NewTextBox(shared font, same string, left, narrow)", Hist: true, Run: func() string {
 		loadFonts()
 		return textDumpGlyphs(canvas.NewTextBox(sharedFace, "fi Vav-e a­b", 9, 0, canvas.Left, canvas.Top, 0, 0))
+	}},
+	// faces of styles that the shared family has not loaded (the closest font plus faux styles)
+	{Name: "shared family: Face(FontBlack) + NewTextLine", Hist: true, Run: func() string {
+		loadFonts()
+		return faceDump(sharedFam.Face(10, canvas.Black, canvas.FontBlack, canvas.FontNormal), "fi Vav")
+	}},
+	{Name: "shared family: Face(FontBlack, FontSubscript) + NewTextLine", Hist: true, Run: func() string {
+		loadFonts()
+		return faceDump(sharedFam.Face(10, canvas.Black, canvas.FontBlack, canvas.FontSubscript), "fi Vav")
+	}},
+	{Name: "shared family: Face(FontBold|FontItalic, FontSuperscript) + NewTextLine", Hist: true, Run: func() string {
+		loadFonts()
+		return faceDump(sharedFam.Face(10, canvas.Black, canvas.FontBold|canvas.FontItalic, canvas.FontSuperscript), "fi Vav")
+	}},
+	{Name: "shared family: Face(FontBold|FontItalic) + NewTextLine", Hist: true, Run: func() string {
+		loadFonts()
+		return faceDump(sharedFam.Face(10, canvas.Black, canvas.FontBold|canvas.FontItalic, canvas.FontNormal), "fi Vav")
 	}},
 	{Name: "rasterizer.Draw", Run: func() string {
 		c := canvas.New(6, 6)
